@@ -18,7 +18,7 @@ FEATURES = {1: [1.0, 0.0], 2: [0.9, 0.1], 3: [0.0, 1.0], 4: [0.5, 0.5], 'a': [1.
             'd': [0.5, 0.5]}
 
 
-def refit(env, lp, npol, ops, d0, d1, N0=2, ND=2, A=2, labels='int', m=1, twin=False):
+def refit(env, lp, npol, ops, d0, d1, N0=2, ND=2, A=2, labels='int', m=1, twin=False, then_partial=False):
     arms = list(LABELS[labels][:A])
     spare = list(LABELS[labels][A:])
     ctx0 = d0 if needs_contexts(lp, npol) else 0
@@ -88,6 +88,13 @@ def refit(env, lp, npol, ops, d0, d1, N0=2, ND=2, A=2, labels='int', m=1, twin=F
             env.ob('cold_arms_after_warm_start', list(mab.cold_arms) == list(fresh.cold_arms))
             outputs_equal(env, 'exp_ws', ask(mab, 'expectations', q), ask(fresh, 'expectations', q), kf,
                           ask(compat, 'expectations', q) if compat else None)
+    if then_partial and compat is None:
+        # "every later sequence of calls": one more batch with the new number of features on both bandits
+        d2, r2, c2 = gen_batch(env, 'T', cur, 1, rk, d=ctx1, fixed_n=1)
+        a2 = (np.asarray(d2), r2) + ((c2,) if ctx1 else ())
+        mab.partial_fit(*a2)
+        fresh.partial_fit(*a2)
+        outputs_equal(env, 'exp_after_partial_fit', ask(mab, 'expectations', q), ask(fresh, 'expectations', q))
     if twin:
         env.ob('twin.false', False)
 
@@ -162,5 +169,11 @@ def scenarios(tier):
                     if (d0, d1) != (1, 1) and ops not in ('P', 'Q', 'AP'):
                         continue
                     add(lp, npol, ops, d0, d1)
+    for lp, npol, d0 in [('ucb1', 'tree', 2), ('ucb1', 'tree', 1), ('ucb1', 'lsh:1:1', 2), ('linucb', None, 2)] + \
+            ([] if q else [('ucb1', 'clusters:2', 2), ('ucb1', 'radius:cityblock', 2), ('thompson', 'tree', 2)]):
+        out.append(Scenario('%s.%s.P.d%d1.then_partial_fit' % (lp, npol or 'none', d0), refit,
+                            dict(lp=lp, npol=npol, ops='P', d0=d0, d1=1, then_partial=True), weight=200 if npol else 40,
+                            shards=4 if npol else 1, max_paths=60000,
+                            bounds=dict(lp=lp, np=npol, prior='FP', d_old=d0, d_new=1, after_refit='partial_fit(1 row)')))
     out.append(Scenario('twin.ucb1.lsh', refit, dict(lp='ucb1', npol='lsh:1:1', ops='P', d0=1, d1=1, twin=True), twin=True))
     return out
